@@ -108,7 +108,7 @@ def same_arrays(tr, snap):
 KTYPES = ['float', 'float', 'int', 'np.int64', 'np.int32', 'np.float64', 'np.float32', 'np.float16', 'Fraction']
 
 
-def const(num, den, as_int=False, ktype=None):
+def const(num, den, as_int=False, ktype=None, for_div=False):
     """the scaling constant as a Python / numpy number of the requested type, whenever that type holds the
     value exactly (else a float); the model scales by the exact rational num/den"""
     import numpy as np
@@ -120,7 +120,10 @@ def const(num, den, as_int=False, ktype=None):
         return int(num)
     if ktype in ('np.int64', 'np.int32') and den == 1:
         return getattr(np, ktype[3:])(num)
-    if ktype in ('np.float32', 'np.float16') and dyadic:
+    # DL / k multiplies by 1/k computed in k's OWN precision: 1/np.float16(10) = 0.09998, 1/np.float32(3) is off by
+    # 1e-8 - far beyond double rounding; low-precision divisors are used only when their reciprocal is exact
+    pow2 = abs(num) & (abs(num) - 1) == 0 and num != 0
+    if ktype in ('np.float32', 'np.float16') and dyadic and (pow2 or not for_div):
         return getattr(np, ktype[3:])(f)
     if ktype == 'np.float64':
         return np.float64(f)
@@ -198,7 +201,7 @@ def run_impl(case):
         sc = []
         for sc_entry in case['scales']:
             num, den, mode = sc_entry[:3]
-            k = const(num, den, ktype=sc_entry[3] if len(sc_entry) > 3 else 'float')
+            k = const(num, den, ktype=sc_entry[3] if len(sc_entry) > 3 else 'float', for_div=mode in (2, 3))
 
             def apply():
                 if mode == 0:
@@ -218,7 +221,7 @@ def run_impl(case):
         # histories on the RESULT of a scaling, interleaved with predictions of the original
         if ro[0] == 'ok':
             for h in case.get('hists', []):
-                k = const(h['k'][0], h['k'][1], h.get('as_int', False), h.get('ktype'))
+                k = const(h['k'][0], h['k'][1], h.get('as_int', False), h.get('ktype'), for_div=h['div'])
                 steps = []
 
                 def both(rr):
@@ -233,7 +236,7 @@ def run_impl(case):
                 fresh = R is not D
                 both(R)
                 for op in h['ops']:
-                    c2 = const(op[1], op[2], h.get('as_int', False), h.get('ktype'))
+                    c2 = const(op[1], op[2], h.get('as_int', False), h.get('ktype'), for_div=op[0] == 'div')
 
                     def do():
                         nonlocal R
@@ -520,7 +523,7 @@ def fitted_case(rng, max_rows, engine):
 
 
 def generate(rng, tier):
-    n, max_rows = (330, 24) if tier == 'quick' else (5000, 40)
+    n, max_rows = (270, 24) if tier == 'quick' else (4000, 40)
     cases = []
     for i in range(n):
         engine = ENGINES[i % 2]
